@@ -346,4 +346,137 @@ theorem violationsG_nil_iff {multi : List Role} {G : List Group} (hk : keysNodup
       have : v ∈ violations multi (flattenG G) := (mem_violationsG hk).mp (by rw [hv]; exact List.mem_cons_self ..)
       rw [h] at this; cases this
 
+/-! ### lock order -/
+
+/-- every thread still obeys the lock order from where it is now -/
+def OrderedAll (rank : Lock → Nat) (B : Nat) (s : State) : Prop :=
+  ∀ t, Ordered rank B (s.held t) (s.prog t)
+
+theorem OrderedAll.step {rank : Lock → Nat} {B : Nat} {s s' : State}
+    (ho : OrderedAll rank B s) (hs : Step s s') : OrderedAll rank B s' := by
+  cases hs with
+  | @acq t l rest hp hen =>
+    intro u
+    by_cases hu : u = t
+    · subst hu
+      have := ho u
+      rw [hp] at this
+      simp only [Ordered] at this
+      simpa [upd] using this.2.2
+    · have := ho u
+      simpa [upd, hu] using this
+  | @rel t l rest hp =>
+    intro u
+    by_cases hu : u = t
+    · subst hu
+      have := ho u
+      rw [hp] at this
+      simpa [upd, Ordered] using this
+    · have := ho u
+      simpa [upd, hu] using this
+  | @access t f k rest hp =>
+    intro u
+    by_cases hu : u = t
+    · subst hu
+      have := ho u
+      rw [hp] at this
+      simpa [upd, Ordered] using this
+    · have := ho u
+      simpa [upd, hu] using this
+
+theorem OrderedAll.reach {rank : Lock → Nat} {B : Nat} {s0 s : State}
+    (h0 : OrderedAll rank B s0) (hr : Reach s0 s) : OrderedAll rank B s := by
+  induction hr with
+  | refl => exact h0
+  | step _ hs ih => exact ih.step hs
+
+/-- a thread blocked at an acquisition can always be traced to an enabled step (by induction on
+    the distance of the awaited lock's rank from the bound) -/
+theorem blocked_progress {rank : Lock → Nat} {B : Nat} {s : State} (ho : OrderedAll rank B s) :
+    ∀ (n : Nat) (t : Tid) (l : Lock) (rest : List Event),
+      B - rank l ≤ n → s.prog t = Event.acq l :: rest → ∃ s', Step s s' := by
+  intro n
+  induction n with
+  | zero =>
+    intro t l rest hn hp
+    have := ho t
+    rw [hp] at this
+    simp only [Ordered] at this
+    have hlt : rank l < B := this.2.1
+    omega
+  | succ n ih =>
+    intro t l rest hn hp
+    by_cases hfree : ∀ u, l ∉ s.held u
+    · exact ⟨_, Step.acq hp hfree⟩
+    · have hex : ∃ u, l ∈ s.held u := by
+        apply Classical.byContradiction
+        intro hne
+        exact hfree (fun u hm => hne ⟨u, hm⟩)
+      obtain ⟨u, hu⟩ := hex
+      have hou := ho u
+      cases hpu : s.prog u with
+      | nil =>
+        rw [hpu] at hou
+        simp only [Ordered] at hou
+        rw [hou] at hu
+        cases hu
+      | cons e rest' =>
+        cases e with
+        | rel l' => exact ⟨_, Step.rel hpu⟩
+        | access f k => exact ⟨_, Step.access hpu⟩
+        | acq l' =>
+          rw [hpu] at hou
+          simp only [Ordered] at hou
+          have h1 : rank l < rank l' := hou.1 l hu
+          have h2 : rank l' < B := hou.2.1
+          exact ih u l' rest' (by omega) hpu
+
+theorem getD_le_sum (ranks : List Nat) (l : Nat) : ranks.getD l 0 ≤ ranks.sum := by
+  induction ranks generalizing l with
+  | nil => simp
+  | cons r rs ih =>
+    cases l with
+    | zero => simp
+    | succ l =>
+      have := ih l
+      simp only [List.getD_cons_succ, List.sum_cons]
+      omega
+
+/-- a thread that follows the extracted edges obeys every ranking the edges respect -/
+theorem ordered_of_followsOrder {ranks : List Nat} {edges : List (Lock × Lock)}
+    (hk : lockOrderAcyclic ranks edges = true) :
+    ∀ (prog : List Event) (h : List Lock), FollowsOrder edges h prog →
+      Ordered (rankOf ranks) (ranks.sum + 1) h prog := by
+  intro prog
+  induction prog with
+  | nil => intro h hf; exact hf
+  | cons e rest ih =>
+    intro h hf
+    cases e with
+    | acq l =>
+      simp only [FollowsOrder] at hf
+      simp only [Ordered]
+      refine ⟨?_, ?_, ih _ hf.2⟩
+      · intro x hx
+        have hm := hf.1 x hx
+        have := List.all_eq_true.mp hk (x, l) hm
+        simpa using this
+      · have := getD_le_sum ranks l
+        simp only [rankOf]
+        omega
+    | rel l => simp only [FollowsOrder] at hf; simp only [Ordered]; exact ih _ hf
+    | access f k => simp only [FollowsOrder] at hf; simp only [Ordered]; exact ih _ hf
+
+theorem rank_lt_of_path {ranks : List Nat} {edges : List (Lock × Lock)}
+    (hk : lockOrderAcyclic ranks edges = true) {a b : Lock} (hp : OrderPath edges a b) :
+    rankOf ranks a < rankOf ranks b := by
+  induction hp with
+  | single he =>
+    have := List.all_eq_true.mp hk _ he
+    simpa using this
+  | @cons x y z he _ ih =>
+    have := List.all_eq_true.mp hk _ he
+    have h1 : rankOf ranks x < rankOf ranks y := by simpa using this
+    exact Nat.lt_trans h1 ih
+
 end EphVerif.Lockset
